@@ -10,9 +10,10 @@ for name, num in FORMATS.items():
                     link=["toolutils.c", "as_endian.c", "bpemu.c"], unwind=9, unwindset=["@ProcessFile:ProcessFile:0:7", "@ProcessFile:ProcessFile:last:3", "h_ProcessFile_lines.0:22", "h_ProcessFile_lines.2:12"] + ["@line_done:line_done:%d:17" % k for k in range(6)], timeout=600, cflags=ERRNO, functions=["ProcessFile"], object_bits=12,
                     flags=["--slice-formula"], split=8,
                     bounded="one byte-granular data record of 1..6 bytes at any address the format can express, line length 1..8, with and without -a, -R (0..$10000), S5 and separate S9 records; no window clipping / multi-byte mode"))
-GROUPS.append(G("hex_S5_count", SRC, "h_ProcessFile_S5", enforce=[], dfcc=False, drop_unused=True, defs=["-DVERIF_FORMAT=1", "-DVERIF_S5ONLY"],
-                link=["toolutils.c", "as_endian.c", "bpemu.c"], unwind=9, unwindset=GROUPS[0].unwindset + ["h_ProcessFile_S5.0:22", "h_ProcessFile_S5.1:12"], timeout=600, cflags=ERRNO, functions=["ProcessFile"], object_bits=12,
-                flags=["--slice-formula"], note="record lengths 1..65535, line lengths 1..255: count and checksum of the S5 record; the path is cut after the S5 line"))
+for ll in (1, 2, 16, 32, 255):
+    GROUPS.append(G("hex_S5_count_l%d" % ll, SRC, "h_ProcessFile_S5", enforce=[], dfcc=False, drop_unused=True, defs=["-DVERIF_FORMAT=1", "-DVERIF_S5ONLY", "-DVERIF_LINELEN=%d" % ll],
+                    link=["toolutils.c", "as_endian.c", "bpemu.c"], unwind=9, unwindset=GROUPS[0].unwindset + ["h_ProcessFile_S5.0:22", "h_ProcessFile_S5.1:12"], timeout=600, cflags=ERRNO, functions=["ProcessFile"], object_bits=12,
+                    flags=["--slice-formula"], note="record lengths 1..65535, line length %d: count and checksum of the S5 record; the path is cut after the S5 line" % ll))
 GROUPS.append(G("hex_lines_Tek_finding", SRC, "h_ProcessFile_lines", enforce=[], dfcc=False, drop_unused=True, defs=["-DVERIF_FORMAT=6"],
                 link=["toolutils.c", "as_endian.c", "bpemu.c"], unwind=9, unwindset=GROUPS[0].unwindset, timeout=600, cflags=ERRNO, functions=["ProcessFile"], object_bits=12,
                 flags=["--slice-formula"], split=8, only_finding="C06_TEK_CHECKSUM", bounded="witness of the recorded finding C06_TEK_CHECKSUM"))
